@@ -38,7 +38,7 @@ def run(ctx):
     for c, row in zip(live, rows):
         d = c["desc"]
         for k, msg in (("second_render_identical", "rendering the same canvas twice gives different images"),
-                       ("paths_unchanged", "rendering changed a path of the canvas"), ("size_ok", "image size is not round(W*res) x round(H*res)"),
+                       ("paths_unchanged", "rendering changed a path of the canvas"), ("images_unchanged", "rendering changed an image of the canvas"), ("size_ok", "image size is not round(W*res) x round(H*res)"),
                        ("gradient_second_render_identical", "rendering a gradient canvas twice gives different images"),
                        ("gradient_unchanged", "rendering changed the stops of the user's gradient")):
             if not d[k]:
